@@ -110,3 +110,25 @@ pub trait BTryFrom<T>: Sized {
 
     fn try_from(from: T) -> Result<Self, Self::Error>;
 }
+/// Thin public wrappers around the private digit kernels, compiled only for the verification harnesses in /verif
+/// (cargo feature `verif_hooks`). With the feature off the crate is unchanged.
+#[cfg(feature = "verif_hooks")]
+pub mod verif_hooks {
+    macro_rules! hooks {
+        ($m: ident, $D: ty, $S: ty) => {
+            pub mod $m {
+                pub fn carrying_add(a: $D, b: $D, c: bool) -> ($D, bool) { crate::digit::$m::carrying_add(a, b, c) }
+                pub fn borrowing_sub(a: $D, b: $D, c: bool) -> ($D, bool) { crate::digit::$m::borrowing_sub(a, b, c) }
+                pub fn carrying_add_signed(a: $S, b: $S, c: bool) -> ($S, bool) { crate::digit::$m::carrying_add_signed(a, b, c) }
+                pub fn borrowing_sub_signed(a: $S, b: $S, c: bool) -> ($S, bool) { crate::digit::$m::borrowing_sub_signed(a, b, c) }
+                pub fn widening_mul(a: $D, b: $D) -> ($D, $D) { crate::digit::$m::widening_mul(a, b) }
+                pub fn carrying_mul(a: $D, b: $D, carry: $D, current: $D) -> ($D, $D) { crate::digit::$m::carrying_mul(a, b, carry, current) }
+                pub fn div_rem_wide(low: $D, high: $D, rhs: $D) -> ($D, $D) { crate::digit::$m::div_rem_wide(low, high, rhs) }
+            }
+        };
+    }
+    hooks!(u8, u8, i8);
+    hooks!(u16, u16, i16);
+    hooks!(u32, u32, i32);
+    hooks!(u64, u64, i64);
+}
